@@ -150,22 +150,22 @@ Theorem C09_parked_blocks_vetted : forall iv cluster_of cap genesis f42 evs b,
 Proof. exact parked_blocks_vetted. Qed.
 Print Assumptions C09_parked_blocks_vetted.
 
-(** "... belongs to a CURRENT block producer", at the chain-service level: as long as no
-    reorganisation failed in rollforward, a main-chain block is validated against the set in
-    force after its own parent.  Partial: after a failed rollforward the consensus is left on
-    the abandoned branch (refuted below for f42 = false, the code without
-    fixes/NOT_APPLIED_F42_reorg_restore_consensus.diff; known finding
-    C09:producer-set-stale-after-failed-reorg, reproduced on the real ChainService by corpus/C09 on
-    every run).  With the repair (f42 = true, detected from chain/reorg.go) the statement holds
-    for every history. *)
-Theorem C09_connected_validated_against_parent_partial :
-  forall iv cluster_of cap genesis f42 evs pre b p post,
-  f42 = true \/ no_failed_rollforward iv cluster_of cap genesis f42 evs (init genesis) ->
-  n_main (run iv cluster_of cap genesis f42 evs (init genesis)) = pre ++ b :: p :: post ->
+(** "... belongs to a CURRENT block producer", at the chain-service level: every main-chain
+    block is validated against the producer set in force after its own parent, for every
+    history.  f42 is the source flag "reorg() puts the consensus back on the best block when
+    rollforward fails" (true for /repo since commit 05cfcb8b, detected from chain/reorg.go on
+    every run by lib/c09chain.py:f42_fixed and passed to the model); the theorem is stated for
+    the code as it is.  For the code without that repair the statement is refuted (witness
+    below, former finding F42; the corpus scenario stale-set-after-failed-reorg keeps it as a
+    regression case: with the flag false the check would report
+    C09:producer-set-stale-after-failed-reorg). *)
+Theorem C09_connected_validated_against_parent :
+  forall iv cluster_of cap genesis evs pre b p post,
+  n_main (run iv cluster_of cap genesis true evs (init genesis)) = pre ++ b :: p :: post ->
   b_parent b = b_id p /\
   is_block_valid Z.eqb iv (cluster_of (b_id p)) (b_signer b) (b_ts b) = true.
-Proof. exact connected_validated_against_parent_partial. Qed.
-Print Assumptions C09_connected_validated_against_parent_partial.
+Proof. exact connected_validated_against_parent. Qed.
+Print Assumptions C09_connected_validated_against_parent.
 
 Theorem C09_connected_validated_against_parent_refuted :
   exists iv cluster_of cap genesis evs pre b p post,
